@@ -594,6 +594,16 @@ class Models:
 
     def meth_str_encode(self, I, s, *a, **k):
         enc = I.concrete_str(a[0]) if a else 'utf-8'
+        errors = a[1] if len(a) > 1 else k.get('errors')
+        if errors is not None:
+            how = I.concrete_str(errors)
+            if how in ('replace', 'ignore', 'backslashreplace', 'xmlcharrefreplace', 'namereplace'):
+                # lossy error handlers never raise and produce text that decodes again in the same encoding
+                t = ufun('enc_%s_%s' % (enc.replace('-', ''), how), StringSort, StringSort)(s.term)
+                I.ctx.assume(ufun('decodable_' + enc.replace('-', ''), StringSort, BoolSort)(t))
+                return VBytes(t)
+            if how != 'strict':
+                raise OutOfSubset('str.encode errors=%r' % how)
         return self.m_encode(I, [s, VStr(enc)], {})
 
     def meth_str_replace(self, I, s, *a):
